@@ -245,6 +245,28 @@ func init() {
 				return
 			}
 		}
+		// the standard single-key forms are shorthands, not other addresses
+		{
+			var pk types.PublicKey
+			copy(pk[:], sim.HashBytes("c14-std", uint64(t.Choose(1<<16)), 0, 32))
+			if t.Chance(1, 4) {
+				pk = c.keys[0].PublicKey()
+			}
+			std := types.StandardUnlockConditions(pk)
+			if a, b := types.StandardUnlockHash(pk), ref.UnlockHash(std); a != b {
+				w.violate("C14", "standard-unlock-hash", fmt.Sprintf("StandardUnlockHash(%v) = %v, the Merkle root of the standard conditions is %v", pk, a, b))
+				return
+			}
+			if a, b := std.UnlockHash(), ref.UnlockHash(std); a != b {
+				w.violate("C14", "unlock-conditions-address", fmt.Sprintf("UnlockHash of the standard conditions of %v = %v, their Merkle root is %v", pk, a, b))
+				return
+			}
+			if a, b := types.StandardAddress(pk), ref.Sum(append(append([]byte("sia/address|"), 1, 3), pk[:]...)); a != types.Address(b) || types.PolicyPublicKey(pk).Address() != a {
+				w.violate("C14", "standard-address", fmt.Sprintf("StandardAddress(%v) = %v, PolicyPublicKey address %v, by definition %v", pk, a, types.PolicyPublicKey(pk).Address(), b))
+				return
+			}
+			w.stats.Inc("probe.P2-standard-forms")
+		}
 		// legacy conditions: the address is their Merkle root, whatever the keys' algorithms and lengths
 		{
 			uc := types.UnlockConditions{Timelock: uint64(t.Choose(3)), SignaturesRequired: uint64(t.Range(0, 2))}
